@@ -290,6 +290,14 @@ func (p *Project) renderMethod(imports map[string]bool, b *strings.Builder, c *C
 	switch m.Ret {
 	case "error":
 		fmt.Fprintf(b, "func (c *%s) %s(%s) error {\n\treturn simhook.Call(c, %q, nil%s)\n}\n\n", c.Name, m.Name, strings.Join(sig, ", "), op, argList)
+	case "customerr", "customerrptr":
+		use(m.RetType)
+		et := m.RetType.GoString(c.Pkg)
+		if m.Ret == "customerrptr" {
+			fmt.Fprintf(b, "func (c *%s) %s(%s) *%s {\n\tif err := simhook.Call(c, %q, nil%s); err != nil {\n\t\treturn &%s{Message: err.Error(), Code: 7}\n\t}\n\treturn nil\n}\n\n", c.Name, m.Name, strings.Join(sig, ", "), et, op, argList, et)
+		} else {
+			fmt.Fprintf(b, "func (c *%s) %s(%s) %s {\n\tvar ret %s\n\tif err := simhook.Call(c, %q, nil%s); err != nil {\n\t\tret = %s{Message: err.Error(), Code: 7}\n\t}\n\treturn ret\n}\n\n", c.Name, m.Name, strings.Join(sig, ", "), et, et, op, argList, et)
+		}
 	case "value":
 		use(m.RetType)
 		rt := m.RetType.GoString(c.Pkg)
